@@ -167,6 +167,9 @@ impl CmdBuild {
         debug!("Executed filelist ({} milliseconds)", stopwatch.lap());
 
         if let Some(mut inc) = incremental {
+            if !self.opt.check {
+                metadata.build_info.emit_key = Some(inc.key().to_string());
+            }
             inc.save(&pipeline::collect_diagnosed(&check_error));
             debug!("Saved fragment cache ({} milliseconds)", stopwatch.lap());
         }
